@@ -31,6 +31,8 @@ func TestReplay(t *testing.T) {
 		key, msg = replayScenario(f.Script, judgeC09Hub)
 	case "TestC17Hub":
 		key, msg = replayScenario(f.Script, judgeC17Hub)
+	case "TestC18Hub":
+		key, msg = replayScenario(f.Script, judgeC18Hub)
 	default:
 		t.Fatalf("no replay handler for %s", f.Test)
 	}
